@@ -279,7 +279,7 @@ fn nodes(v: &Value, ptr: String, out: &mut Vec<(String, String)>) {
     }
 }
 
-pub const FAULTS: [&str; 42] = [
+pub const FAULTS: [&str; 43] = [
     "two-variants", "no-variant", "unknown-variant", "node-string", "node-array", "node-null", "terminal-string", "terminal-null", "terminal-bool",
     "terminal-object", "missing-outcomes", "missing-actions", "missing-infoset", "missing-player-one", "missing-prob", "missing-state",
     "infoset-twice", "actions-twice", "outcomes-twice", "prob-twice", "player-one-number", "player-one-string", "infoset-number", "infoset-null",
@@ -292,6 +292,9 @@ pub const FAULTS: [&str; 42] = [
     // serde's positional form of an inner object with an element missing, one too many, or two exchanged; and the
     // positional form as it should be (open, not a fault: the specification decides)
     "positional", "positional-short", "positional-long", "positional-swapped", "outcome-positional-short", "outcome-positional-swapped",
+    // every chance node labelled with the EMPTY string: one chance infoset (a fault when their distributions differ: the
+    // specification decides)
+    "chance-labels-empty",
 ];
 
 fn members_mut<'a>(doc: &'a mut Value, node: &str) -> Option<&'a mut Vec<Value>> {
@@ -316,6 +319,21 @@ pub fn apply_fault(doc: &Value, fault: &str, rng: &mut Rng) -> Option<Value> {
         "positional" | "positional-short" | "positional-long" | "positional-swapped" => &["chance", "player"],
         _ => &["player"],
     };
+    if fault == "chance-labels-empty" {
+        let chance: Vec<&(String, String)> = all.iter().filter(|(_, k)| k == "chance").collect();
+        if chance.len() < 2 {
+            return None;
+        }
+        let mut d = doc.clone();
+        for (ptr, _) in chance {
+            let ms = members_mut(&mut d, ptr)?;
+            match member_index(ms, "infoset") {
+                Some(i) => ms[i]["v"] = st(""),
+                None => ms.push(member("infoset", st(""))),
+            }
+        }
+        return Some(d);
+    }
     let cands: Vec<&(String, String)> = all.iter().filter(|(_, k)| wants.contains(&k.as_str())).collect();
     if cands.is_empty() {
         return None;
